@@ -50,6 +50,7 @@ def shards(tier):
 
 def required_counters(tier):
     return {
+        "near_recursion_limit.checks": 500, "near_recursion_limit.died_with_RecursionError": 30,
         "question_axes.later_check_fails_after_binding": 200, "unknown_size.bound_then_concrete_size_checked": 50,
         "fail.with_tentative": 1000,
         "fail.array": 500,
@@ -745,6 +746,10 @@ def suite_arm(rec):
 def run_shard(rec, seed, shard, tier):
     if shard["i"] == NSHARDS - 1:
         suite_arm(rec)
+    if shard["i"] == 2:
+        from .depth_common import arm_checks_near_recursion_limit
+
+        arm_checks_near_recursion_limit(rec, ["array/", "pytree/"])
     GT.ensure_registered()
     for k in range(CASES[tier]):
         key = f"{seed}/C04/{shard['i']}/{k}"
